@@ -103,6 +103,10 @@ func genC17(t *rapid.T) interface{} {
 type c17Raw struct {
 	index    []byte
 	versions int
+	// live counts version records that carry a value; a leftover deletion marker of an earlier delete is not part
+	// of the Event any more (nothing reads it once the index record is gone, the next compaction removes it) and
+	// native-TTL engines never gave it an expiry
+	live int
 }
 
 func c17RawState(env *SeqEnv, key string) (c17Raw, error) {
@@ -123,6 +127,9 @@ func c17RawState(env *SeqEnv, key string) (c17Raw, error) {
 			r.index = rec.Val
 		} else {
 			r.versions++
+			if !bytes.Equal(rec.Val, []byte("tombstone")) {
+				r.live++
+			}
 		}
 	}
 	return r, nil
@@ -270,8 +277,8 @@ func runC17(ci interface{}, st *CaseStats) error {
 						return fmt.Errorf("step %d: Event %q still reads as present but its records are partly gone (index=%v versions=%d)", si, key, raw.index != nil, raw.versions)
 					}
 				} else {
-					if raw.index != nil || raw.versions != 0 {
-						return fmt.Errorf("step %d: expired Event %q reads as absent but records remain (index=%v versions=%d): index and versions must go together", si, key, raw.index != nil, raw.versions)
+					if raw.index != nil || raw.live != 0 {
+						return fmt.Errorf("step %d: expired Event %q reads as absent but records remain (index=%v versions with a value=%d): index and versions must go together", si, key, raw.index != nil, raw.live)
 					}
 					// the model forgets the key without any event
 					delete(env.M.Keys, key)
@@ -521,14 +528,14 @@ func runC17Backend(ci interface{}, st *CaseStats) error {
 					}
 				} else {
 					// engines with native TTL expire records one by one: allow a moment, then require all gone
-					if raw.index != nil || raw.versions != 0 {
+					if raw.index != nil || raw.live != 0 {
 						time.Sleep(1200 * time.Millisecond)
 						raw, _ = c17RawState(env, key)
 						g2, _ := env.B.Get(ctx, &proto.GetRequest{Key: []byte(key)})
-						if g2.GetKv() == nil && (raw.index != nil || raw.versions != 0) {
+						if g2.GetKv() == nil && (raw.index != nil || raw.live != 0) {
 							// engines with native TTL drop a key's records one by one, but all of them carry the same
 							// expiry: more than a second later nothing of an expired Event may be left
-							return fmt.Errorf("step %d: expired Event %q reads as absent but records remain (index=%v versions=%d): index and versions must go together", si, key, raw.index != nil, raw.versions)
+							return fmt.Errorf("step %d: expired Event %q reads as absent but records remain (index=%v versions with a value=%d): index and versions must go together", si, key, raw.index != nil, raw.live)
 						}
 					}
 					delete(env.M.Keys, key)
